@@ -14,7 +14,9 @@ import warnings
 import numpy as np
 import scipy.sparse as sps
 
-from harness.common import err_kind, deep_compare
+from fractions import Fraction
+
+from harness.common import err_kind, deep_compare, frac
 
 PID = "C21"
 THEOREMS = [
@@ -36,6 +38,18 @@ THEOREMS = [
     "PorepyVerif.C21.scalar_div_matches_incidence",
     "PorepyVerif.C21.vector_div_is_kron",
     "PorepyVerif.C21.divergence_nonpositive_errors",
+    "PorepyVerif.C21.vector_div_acts_componentwise",
+    "PorepyVerif.C21.add_tags_lookup",
+    "PorepyVerif.C21.all_tags_is_union",
+    "PorepyVerif.C21.all_boundary_faces_is_union",
+    "PorepyVerif.C21.node_tag_spec",
+    "PorepyVerif.C21.fresh_tags_spec",
+    "PorepyVerif.C21.fresh_all_boundary_faces",
+    "PorepyVerif.C21.fresh_boundary_node_iff",
+    "PorepyVerif.C21.extract_subgrid_wf",
+    "PorepyVerif.C21.extract_subgrid_entries_from_parent",
+    "PorepyVerif.C21.split_face_wf",
+    "PorepyVerif.C21.split_faces_become_boundary",
 ]
 LEAN_MODULES = ["PorepyVerif.C21.Props"]
 AUDIT = "PorepyVerif/C21/Audit.lean"
@@ -46,9 +60,12 @@ RULE = ("one grid per case, built by the real code from a recipe: CartGrid 1/2/3
         "pp.meshing.cart_grid with 1-2 fractures in 2-d/3-d (interior, touching or lying on the domain boundary, crossing), a subdomain of "
         "pp.mdg_library.square/cube_with_orthogonal_fractures (cartesian or gmsh simplex), pp.partition.extract_subgrid of any of these "
         "(0 cells, 1 cell, random subsets, all cells), and raw incidences handed to pp.Grid (0 cells, 0 faces, faces without cell, unsorted "
-        "column indices; 20% of them ill-formed: a face with three cells + - +). Queries: signs_and_cells_of_boundary_faces on 1-4 face "
-        "sets (empty, single, all boundary faces, shuffled, with a repeated face, with an internal face -> ValueError), divergence(dim) "
-        "for dims from {1,2,3,4} and sometimes 0/-1/-2 -> ValueError. non-trivial = at least 2 cells and 3 faces; distinct = distinct recipes+queries")
+        "column indices; 20% of them ill-formed: a face with three cells + - +). Queries: signs_and_cells_of_boundary_faces on 2-5 face "
+        "sets whose ORDER is a stratified dimension (every case cycles through generic shuffle / rotation of the sorted list by 1..7 / sorted / "
+        "reversed; sizes empty, single, 2-8, all boundary faces; with a repeated face; with an internal face -> ValueError), divergence(dim) "
+        "for dims from {1,2,3,4} and sometimes 0/-1/-2 -> ValueError, each applied to a seeded dyadic flux vector; tag arithmetic on the grid's "
+        "own tags (all_face_tags, all_node_tags, update_boundary_node_tag, add_node_tags_from_face_tags) and add_tags / extract / append_tags on a "
+        "seeded free-standing dictionary (15% with an unknown key -> KeyError); for subgrids the whole extraction (incidence, face_nodes, face and node maps). non-trivial = at least 2 cells and 3 faces; distinct = distinct recipes+queries")
 TRUSTED = [
     "modelled, not verified: scipy.sparse glue (sps.find enumeration order, csc->csr conversion, matrix product / kron / transpose, row slicing, "
     "boolean comparison of sparse matrices), numpy fancy assignment (last write wins), argsort round trip in signs_and_cells_of_boundary_faces "
@@ -56,6 +73,9 @@ TRUSTED = [
     "the model reads the compressed arrays of g.cell_faces / g.face_nodes as stored; explicit zeros are never stored by porepy grids and are not generated",
     "fracture_faces / tip_faces are inputs to the model (they are written by the fracture meshing, outside the anchored code); only their relation to "
     "the one-cell faces is checked (oracle: union of the three standard tags = one-cell faces; domain boundary = one-cell faces minus fracture minus tip)",
+    "tag arrays passed to np.logical_or are assumed to have equal length (the model truncates, numpy would raise); numpy negative / out-of-range "
+    "indices in tags.extract are not generated; split_grid itself is not modelled: splitFace is the model of its effect on one face (theorems only, "
+    "the split grids produced by the real meshing are covered by correspondence of all queries)",
     "signs_and_cells_of_boundary_faces on a query that mixes internal faces with faces that have no cell at all (possible only for raw incidences) "
     "is outside the property (the code's size test cannot detect it) and is not generated",
 ]
@@ -63,13 +83,18 @@ EXPLANATION = ("FULL: model = stored entries (face, cell, sign) of cell_faces in
                "Theorems hold for EVERY well-formed topology (any size): tagged boundary faces = faces with exactly one adjacent cell; internal faces = "
                "two cells of opposite sign; dense array <-> incidence in both directions; connection map = 'share a face', symmetric; signs/cells of "
                "boundary faces = the unique stored entry, ValueError on internal faces; cell_nodes = nodes of the faces of the cell; vector divergence = "
-               "scalar divergence expanded per component for every dim >= 1 (no well-formedness needed). Correspondence compares every query's output "
+               "scalar divergence expanded per component for every dim >= 1 (no well-formedness needed), entry-wise and applied to any flux vector; tag "
+               "dictionary arithmetic (add_tags lookup, all_tags = union, node tags = nodes of tagged faces, constructor tags: boundary node iff on a one-cell face); "
+               "well-formedness is preserved by extract_subgrid's restriction+renumbering and by splitting a face, whose two copies become one-cell faces. Correspondence compares every query's output "
                "exactly (sets canonically sorted) and the model's decision of the theorems' hypothesis WF/NoOrphan with an independent numpy computation.")
 ASSUMPTIONS = ["theorems about dense array, boundary tags and signs/cells assume the well-formedness predicate WF (signs +-1, at most one cell per side "
                "of a face, no repeated entry); the harness checks on every generated grid that the model decides WF exactly when numpy does, and every grid "
                "built by porepy constructors / meshing / extraction in the sample satisfied it"]
 
 FACE_TAGS = ("fracture_faces", "tip_faces", "domain_boundary_faces")
+NODE_TAGS = ("fracture_nodes", "tip_nodes", "domain_boundary_nodes")
+NODE_OF_FACE = {"domain_boundary_faces": "domain_boundary_nodes", "fracture_faces": "fracture_nodes", "tip_faces": "tip_nodes"}
+ORDERS = ("shuffle", "rotate", "sorted", "reverse")
 
 
 # ----------------------------------------------------------------------------- generator (seeded rng only, no porepy)
@@ -202,15 +227,23 @@ def gen_case(rng, tier):
         base = {"kind": "sub", "base": base, "frac": rng.choice([0.0, 0.15, 0.3, 0.5, 0.5, 0.8, 1.0]), "seed": rng.randint(0, 10 ** 6),
                 "one": rng.random() < 0.15}
     qs = []
-    for _ in range(rng.randint(1, 4)):
-        qs.append({"seed": rng.randint(0, 10 ** 6), "size": rng.choice([0, 1, 2, 3, 5, 8, 1000]), "dup": rng.random() < 0.25,
-                   "internal": rng.random() < 0.25})
+    nq = rng.randint(2, 5)
+    start = rng.randrange(len(ORDERS))
+    for i in range(nq):
+        # the order of the face list is a stratified dimension: every case cycles through generic shuffles, rotations of
+        # the sorted list (sorting permutation = a cycle, not an involution for >= 3 faces), sorted and reversed lists
+        order = ORDERS[(start + i) % len(ORDERS)]
+        size = rng.choice([3, 4, 5, 8, 1000]) if order in ("rotate", "shuffle") and rng.random() < 0.8 else rng.choice([0, 1, 2, 3, 5, 8, 1000])
+        qs.append({"seed": rng.randint(0, 10 ** 6), "size": size, "dup": rng.random() < 0.25,
+                   "internal": rng.random() < 0.2, "order": order, "shift": rng.randint(1, 7)})
     dims = rng.sample([1, 2, 3, 4], rng.randint(1, 3)) + ([rng.choice([0, -1, -2])] if rng.random() < 0.3 else [])
-    return {"grid": base, "sc": qs, "div": dims}
+    return {"grid": base, "sc": qs, "div": dims, "flux": rng.randint(0, 10 ** 6),
+            "tagops": {"seed": rng.randint(0, 10 ** 6), "missing": rng.random() < 0.15}}
 
 
 # ----------------------------------------------------------------------------- building the real grid from a recipe
 _CACHE = {}
+_SUB = {}  # recipe of a subgrid -> (parent grid, cells asked for, unique_faces, unique_nodes)
 
 
 def _perturb(g, seed):
@@ -256,7 +289,8 @@ def _build(rec):
         m = 1 if rec["one"] else int(round(rec["frac"] * n))
         m = max(0, min(n, m))
         cells = r.sample(range(n), m)  # unsorted on purpose: extract_subgrid sorts
-        h, _, _ = pp.partition.extract_subgrid(base, np.array(cells, dtype=int))
+        h, uf, un = pp.partition.extract_subgrid(base, np.array(cells, dtype=int))
+        _SUB[json.dumps(rec, sort_keys=True)] = (base, cells, _ints(uf), _ints(un))
         return h
     if k == "raw":
         cf = sps.csc_matrix((np.array(rec["cf_data"], dtype=int), np.array(rec["cf_indices"], dtype=int),
@@ -272,6 +306,7 @@ def _grid(case):
     if key not in _CACHE:
         if len(_CACHE) > 4000:
             _CACHE.clear()
+            _SUB.clear()
         with warnings.catch_warnings():
             warnings.simplefilter("ignore")
             _CACHE[key] = _build(case["grid"])
@@ -314,6 +349,14 @@ def _queries(g, case):
     for q in case["sc"]:
         r = random.Random(q["seed"])
         faces = r.sample(B, min(q["size"], len(B)))
+        order = q.get("order", "shuffle")
+        if order != "shuffle":
+            faces.sort()
+        if order == "reverse":
+            faces.reverse()
+        if order == "rotate" and len(faces) > 1:
+            k = 1 + (q.get("shift", 1) - 1) % (len(faces) - 1)
+            faces = faces[k:] + faces[:k]
         if q["dup"] and faces:
             faces.insert(r.randrange(len(faces) + 1), r.choice(faces))
         if q["internal"] and I:
@@ -356,6 +399,130 @@ def _wf_numpy(g):
         if len(set(cells)) < len(cells) or len(set(signs)) < len(signs):
             ok = False
     return ok, all(f in per_face for f in range(g.num_faces))
+
+
+def _topo_fields(g):
+    cf = g.cell_faces if g.cell_faces.format == "csc" else g.cell_faces.tocsc()
+    fn = g.face_nodes if g.face_nodes.format == "csc" else g.face_nodes.tocsc()
+    return {"dim": int(g.dim), "nf": int(g.num_faces), "nc": int(g.num_cells), "nn": int(g.num_nodes),
+            "cf_indptr": _ints(cf.indptr), "cf_indices": _ints(cf.indices), "cf_data": _ints(cf.data),
+            "fn_indptr": _ints(fn.indptr), "fn_indices": _ints(fn.indices)}
+
+
+def _flux(case, g):
+    """one flux vector per entry of case['div'] (small dyadic rationals: exact in binary64), as Fractions"""
+    r = random.Random(case.get("flux", 0))
+    out = []
+    for dim in case["div"]:
+        n = g.num_faces * dim if dim >= 1 else 0
+        out.append([Fraction(r.randint(-16, 16), r.choice([1, 1, 2, 4])) for _ in range(n)])
+    return out
+
+
+def _bools(a):
+    return [bool(x) for x in np.asarray(a).ravel()]
+
+
+def _tagops(case, g):
+    """a free-standing tag dictionary and arguments for add_tags / extract / append_tags (seeded)"""
+    t = case.get("tagops", {"seed": 0, "missing": False})
+    r = random.Random(t["seed"])
+    n = r.choice([0, 1, 2, 3, 5, 8])
+    pool = ["fracture_faces", "tip_faces", "domain_boundary_faces", "user_faces", "well_cells"]
+    keys = r.sample(pool, r.randint(1, 4))
+    d = [{"k": k, "v": [r.random() < 0.4 for _ in range(n)]} for k in keys]
+    newkeys = r.sample(pool, r.randint(0, 3))
+    new = [{"k": k, "v": [r.random() < 0.5 for _ in range(r.choice([n, n, n + 1, 0]))]} for k in newkeys]
+    idx = [r.randrange(n) for _ in range(r.randint(0, 6))] if n else []
+    ekeys = r.sample(keys, r.randint(0, len(keys)))
+    akeys = r.sample(keys, r.randint(0, len(keys)))
+    if t["missing"]:
+        (ekeys if r.random() < 0.5 else akeys).append("no_such_tag")
+    app = [{"k": k, "v": [r.random() < 0.5 for _ in range(r.randint(0, 3))]} for k in akeys]
+    return {"dict": d, "new": new, "idx": idx, "keys": ekeys, "app": app}
+
+
+def _as_np(kvs):
+    return {kv["k"]: np.array(kv["v"], dtype=bool) for kv in kvs}
+
+
+def _kv(d, keys=None):
+    return {k: _bools(v) for k, v in d.items() if keys is None or k in keys}
+
+
+class _Parent:
+    pass
+
+
+class _FakeMdg:
+    def __init__(self, g):
+        self._g = g
+
+    def subdomains(self):
+        return [self._g]
+
+
+def _with_node_tags_restored(g, f):
+    saved = {k: g.tags[k] for k in NODE_TAGS}
+    try:
+        return f()
+    finally:
+        for k, v in saved.items():
+            g.tags[k] = v
+
+
+def _impl_tags(case, g):
+    from porepy.utils import tags as T
+    out = {}
+    out["all_face"] = _ints(np.where(T.all_face_tags(g.tags))[0])
+    out["all_node"] = _ints(np.where(T.all_node_tags(g.tags))[0])
+    out["std"] = [list(T.standard_face_tags()), list(T.standard_node_tags())]
+
+    def upd():
+        g.update_boundary_node_tag()
+        return _kv(g.tags, NODE_TAGS)
+    out["node_upd"] = _with_node_tags_restored(g, upd)
+
+    def frm():
+        T.add_node_tags_from_face_tags(_FakeMdg(g), "domain_boundary")
+        return _bools(g.tags["domain_boundary_nodes"])
+    out["dom_nodes"] = _with_node_tags_restored(g, frm)
+    out["fresh"] = _kv(g.tags, FACE_TAGS + NODE_TAGS) if _is_fresh(case["grid"]) else None
+    ops = _tagops(case, g)
+    par = _Parent()
+    par.tags = _as_np(ops["dict"])
+    T.add_tags(par, _as_np(ops["new"]))
+    out["add"] = _kv(par.tags)
+    try:
+        out["extract"] = _kv(T.extract(_as_np(ops["dict"]), np.array(ops["idx"], dtype=int), list(ops["keys"])))
+    except Exception as e:
+        out["extract"] = err_kind(e)
+    try:
+        d = _as_np(ops["dict"])
+        T.append_tags(d, [kv["k"] for kv in ops["app"]], [np.array(kv["v"], dtype=bool) for kv in ops["app"]])
+        out["append"] = _kv(d)
+    except Exception as e:
+        out["append"] = err_kind(e)
+    return out
+
+
+def _entries(m):
+    m = m if m.format == "csc" else m.tocsc()
+    return sorted([int(m.indices[k]), c, int(m.data[k])] for c in range(m.shape[1]) for k in range(m.indptr[c], m.indptr[c + 1]))
+
+
+def _fn_lists(m):
+    m = m if m.format == "csc" else m.tocsc()
+    return [_ints(m.indices[m.indptr[f]:m.indptr[f + 1]]) for f in range(m.shape[1])]
+
+
+def _impl_extract(case, g):
+    key = json.dumps(case["grid"], sort_keys=True)
+    if key not in _SUB:
+        return None
+    base, cells, uf, un = _SUB[key]
+    return {"nf": int(g.num_faces), "nc": int(g.num_cells), "nn": int(g.num_nodes), "cf": _entries(g.cell_faces),
+            "fn": _fn_lists(g.face_nodes), "faces": uf, "nodes": un, "parent_cell_ind": _ints(g.parent_cell_ind)}
 
 
 def impl_run(case):
@@ -404,19 +571,40 @@ def impl_run(case):
             except Exception as e:
                 dv.append(err_kind(e))
         out["div"] = dv
+        du = []
+        for dim, u in zip(case["div"], _flux(case, g)):
+            try:
+                m = g.divergence(dim)
+                du.append([frac(x) for x in np.asarray(m @ np.array([float(x) for x in u], dtype=float)).ravel()])
+            except Exception as e:
+                du.append(err_kind(e))
+        out["divu"] = du
+        out["tags"] = _impl_tags(case, g)
+        out["extract"] = _impl_extract(case, g)
     return out
 
 
 # ----------------------------------------------------------------------------- model side
 def model_ops(case):
     g = _grid(case)
-    cf = g.cell_faces if g.cell_faces.format == "csc" else g.cell_faces.tocsc()
-    fn = g.face_nodes if g.face_nodes.format == "csc" else g.face_nodes.tocsc()
-    return [{"op": "grid", "dim": int(g.dim), "nf": int(g.num_faces), "nc": int(g.num_cells), "nn": int(g.num_nodes),
-             "cf_indptr": _ints(cf.indptr), "cf_indices": _ints(cf.indices), "cf_data": _ints(cf.data),
-             "fn_indptr": _ints(fn.indptr), "fn_indices": _ints(fn.indices),
-             "frac": _ints(np.where(g.tags["fracture_faces"])[0]), "tip": _ints(np.where(g.tags["tip_faces"])[0]),
-             "sc": _queries(g, case), "div": [int(d) for d in case["div"]]}]
+    topo = _topo_fields(g)
+    ops = [dict(topo, op="grid",
+                frac=_ints(np.where(g.tags["fracture_faces"])[0]), tip=_ints(np.where(g.tags["tip_faces"])[0]),
+                sc=_queries(g, case), div=[int(d) for d in case["div"]],
+                flux=[[frac(x) for x in u] for u in _flux(case, g)])]
+    tg = [{"k": k, "v": _bools(g.tags[k])} for k in FACE_TAGS + NODE_TAGS]
+    ops.append(dict(topo, op="tags", tags=tg, fresh=_is_fresh(case["grid"]), **_tagops(case, g)))
+    key = json.dumps(case["grid"], sort_keys=True)
+    if key in _SUB:
+        base, cells, _, _ = _SUB[key]
+        ops.append(dict(_topo_fields(base), op="extract", cells=[int(c) for c in cells]))
+    return ops
+
+
+def _tags_dict(j):
+    if isinstance(j, dict):  # error object
+        return j
+    return None if j is None else {kv["k"]: kv["v"] for kv in j}
 
 
 def model_decode(outs, case):
@@ -442,6 +630,24 @@ def model_decode(outs, case):
         else:
             dv.append({"shape": [nc * dim, nf * dim], "trip": sorted(d)})
     out["div"] = dv
+    if len(outs) > 1:
+        t = dict(outs[1])
+        if "err" in t:
+            return t
+        for k in ("node_upd", "fresh", "add", "extract", "append"):
+            t[k] = _tags_dict(t[k])
+        t["std"] = [list(FACE_TAGS), list(NODE_TAGS)]
+        out["tags"] = t
+    out["extract"] = None
+    if len(outs) > 2:
+        e = dict(outs[2])
+        if "err" in e:
+            return e
+        e["cf"] = sorted(e["cf"], key=lambda x: (x[1], x[0]))
+        e["cf"] = sorted(e["cf"])
+        e["parent_cell_ind"] = sorted(_SUB[json.dumps(case["grid"], sort_keys=True)][1])
+        e.pop("wf")
+        out["extract"] = e
     return out
 
 
@@ -459,6 +665,103 @@ def _wellformed(A):
     if np.any(cnt > 2):
         return False
     return bool(np.all(A[cnt == 2].sum(axis=1) == 0))
+
+
+def _oracle_tags(case, g, A, FN, kind):
+    from porepy.utils import tags as T
+    nf = g.num_faces
+    t = {k: np.asarray(g.tags[k]).astype(bool) for k in FACE_TAGS + NODE_TAGS}
+    try:
+        if list(T.standard_face_tags()) != list(FACE_TAGS) or list(T.standard_node_tags()) != list(NODE_TAGS):
+            return {"what": "standard_face_tags / standard_node_tags changed", "key": "standard-tag-keys"}
+        af, an = np.asarray(T.all_face_tags(g.tags)).astype(bool), np.asarray(T.all_node_tags(g.tags)).astype(bool)
+        if not np.array_equal(af, t[FACE_TAGS[0]] | t[FACE_TAGS[1]] | t[FACE_TAGS[2]]):
+            return {"what": f"all_face_tags is not the union of fracture, tip and domain boundary tags on {kind}", "key": "all-face-tags-not-union"}
+        if not np.array_equal(an, t[NODE_TAGS[0]] | t[NODE_TAGS[1]] | t[NODE_TAGS[2]]):
+            return {"what": f"all_node_tags is not the union of the three node tags on {kind}", "key": "all-node-tags-not-union"}
+        if not np.array_equal(np.asarray(g.get_all_boundary_faces()), np.where(af)[0]):
+            return {"what": f"get_all_boundary_faces differs from the faces where all_face_tags holds on {kind}", "key": "all-boundary-faces-indices"}
+
+        def upd():
+            g.update_boundary_node_tag()
+            return {k: np.asarray(g.tags[k]).astype(bool) for k in NODE_TAGS}
+        nt = _with_node_tags_restored(g, upd)
+        for fk, nk in NODE_OF_FACE.items():
+            exp = (FN.astype(int) @ t[fk].astype(int)) > 0 if nf else np.zeros(FN.shape[0], dtype=bool)
+            if nt[nk].size != g.num_nodes or not np.array_equal(nt[nk][: exp.size], exp) or nt[nk][exp.size:].any():
+                return {"what": f"update_boundary_node_tag: {nk} is not 'belongs to a face tagged {fk}' on {kind}", "key": "node-tag-not-from-faces"}
+
+        def frm():
+            T.add_node_tags_from_face_tags(_FakeMdg(g), "domain_boundary")
+            return np.asarray(g.tags["domain_boundary_nodes"]).astype(bool)
+        dn = _with_node_tags_restored(g, frm)
+        exp = (FN.astype(int) @ t["domain_boundary_faces"].astype(int)) > 0 if nf else np.zeros(FN.shape[0], dtype=bool)
+        if not np.array_equal(dn[: exp.size], exp) or dn[exp.size:].any():
+            return {"what": f"add_node_tags_from_face_tags: domain_boundary_nodes is not 'belongs to a domain boundary face' on {kind}", "key": "add-node-tags-from-face-tags"}
+        if _is_fresh(case["grid"]) and _wellformed(A):
+            one = ((A != 0).sum(axis=1) == 1) if g.dim > 0 else np.zeros(nf, dtype=bool)
+            exp = (FN.astype(int) @ one.astype(int)) > 0 if nf else np.zeros(FN.shape[0], dtype=bool)
+            if not np.array_equal(t["domain_boundary_nodes"][: exp.size], exp) or t["fracture_nodes"].any() or t["tip_nodes"].any():
+                return {"what": f"fresh grid: a node is a domain boundary node iff it belongs to a one-cell face fails on {kind}", "key": "fresh-boundary-nodes"}
+        # dictionary helpers against python dict / numpy semantics
+        ops = _tagops(case, g)
+        old, new = _as_np(ops["dict"]), _as_np(ops["new"])
+        par = _Parent()
+        par.tags = dict(old)
+        T.add_tags(par, new)
+        want = {**old, **new}
+        if set(par.tags) != set(want) or any(not np.array_equal(par.tags[k], want[k]) for k in want):
+            return {"what": "add_tags(parent, new) differs from {**old, **new}", "key": "add-tags"}
+        bad_key = any(k not in old for k in ops["keys"])
+        try:
+            ex = T.extract(dict(old), np.array(ops["idx"], dtype=int), list(ops["keys"]))
+            if bad_key:
+                return {"what": "tags.extract with an unknown key did not raise", "key": "extract-unknown-key"}
+            for k in old:
+                w = old[k][np.array(ops["idx"], dtype=int)] if k in ops["keys"] else old[k]
+                if not np.array_equal(ex[k], w):
+                    return {"what": f"tags.extract: key {k} is not the tag restricted to the indices", "key": "extract-tags"}
+        except KeyError:
+            if not bad_key:
+                return {"what": "tags.extract raised KeyError on known keys", "key": "extract-raises"}
+        bad_key = any(kv["k"] not in old for kv in ops["app"])
+        if not bad_key:
+            d = dict(old)
+            T.append_tags(d, [kv["k"] for kv in ops["app"]], [np.array(kv["v"], dtype=bool) for kv in ops["app"]])
+            w = dict(old)
+            for kv in ops["app"]:
+                w[kv["k"]] = np.concatenate([w[kv["k"]], np.array(kv["v"], dtype=bool)])
+            if any(not np.array_equal(d[k], w[k]) for k in w):
+                return {"what": "tags.append_tags differs from concatenation", "key": "append-tags"}
+    except Exception as e:
+        return {"what": f"tag arithmetic raised {type(e).__name__}: {e} on {kind}", "key": f"tags-raised-{type(e).__name__}"}
+    return None
+
+
+def _oracle_extract(case, g, A, kind):
+    key = json.dumps(case["grid"], sort_keys=True)
+    if key not in _SUB:
+        return None
+    base, cells, uf, un = _SUB[key]
+    cs = sorted(cells)
+    P = _dense_cf(base)
+    if not np.array_equal(np.asarray(g.parent_cell_ind).ravel(), np.array(cs, dtype=int)):
+        return {"what": f"extract_subgrid: parent_cell_ind is not the sorted cell list on {kind}", "key": "extract-parent-cells"}
+    touched = sorted(int(f) for f in np.where((P[:, cs] != 0).any(axis=1))[0]) if cs else []
+    if list(uf) != touched:
+        return {"what": f"extract_subgrid: face map is not the sorted list of faces of the cells on {kind}", "key": "extract-face-map"}
+    if A.shape != (len(uf), len(cs)) or not np.array_equal(A, P[np.array(uf, dtype=int)][:, np.array(cs, dtype=int)].reshape(A.shape)):
+        return {"what": f"extract_subgrid: incidence is not the parent incidence restricted to the cells on {kind}", "key": "extract-incidence"}
+    PF = np.asarray(base.face_nodes.toarray() != 0)
+    nodes = sorted(int(n) for n in np.where(PF[:, np.array(uf, dtype=int)].any(axis=1))[0]) if uf else []
+    if list(un) != nodes:
+        return {"what": f"extract_subgrid: node map is not the sorted list of nodes of the faces on {kind}", "key": "extract-node-map"}
+    FNs = np.asarray(g.face_nodes.toarray() != 0)
+    if FNs.shape != (len(un), len(uf)) or not np.array_equal(FNs, PF[np.array(un, dtype=int)][:, np.array(uf, dtype=int)].reshape(FNs.shape)):
+        return {"what": f"extract_subgrid: face_nodes is not the parent relation restricted on {kind}", "key": "extract-face-nodes"}
+    if _wellformed(P) and not _wellformed(A):
+        return {"what": f"subgrid of a well-formed grid is not well-formed on {kind}", "key": "extract-not-wellformed"}
+    return None
 
 
 class _Raised(Exception):
@@ -514,6 +817,23 @@ def _oracle(case, g):
             if not np.array_equal(np.asarray(D.toarray()), E):
                 return {"what": f"divergence({dim}) is not the scalar divergence expanded per component on {kind} ({nf} faces, {nc} cells)",
                         "key": "div-not-kron" if dim > 1 else "div-scalar-not-incidence-transpose"}
+        # --- ... in matrix-vector form: the vector divergence acts component by component
+        for dim, u in zip(case["div"], _flux(case, g)):
+            if dim < 1:
+                continue
+            uf = np.array([float(x) for x in u], dtype=float).reshape(nf, dim)
+            got = np.asarray(_call(g, "divergence", dim) @ uf.ravel()).reshape(nc, dim)
+            for k in range(dim):
+                if not np.array_equal(got[:, k], A.T.astype(float) @ uf[:, k]):
+                    return {"what": f"divergence({dim}) @ u differs from the scalar divergence of component {k} on {kind}", "key": "div-apply-not-componentwise"}
+        # --- tag arithmetic (utils/tags.py): union of the three kinds; node tags = nodes of tagged faces
+        o = _oracle_tags(case, g, A, FN, kind)
+        if o:
+            return o
+        # --- subgrids: incidence of the parent restricted to the cells, well-formed if the parent is
+        o = _oracle_extract(case, g, A, kind)
+        if o:
+            return o
         # --- connection map: symmetric, and = cells sharing a face
         C = _call(g, "cell_connection_map")
         Cd = np.asarray(C.toarray()).astype(bool).reshape(nc, nc)
@@ -657,6 +977,10 @@ def stats(cases, impl_outs):
         if isinstance(o, dict) and "sc" in o:
             nq += len(o["sc"])
             nerr += sum(1 for s in o["sc"] if "err" in s)
-    return {"grid_kinds": kinds, "grid_dims": dims, "sizes": sizes, "grids_with_split_faces": split,
+    orders = {}
+    for c in cases:
+        for q in c["sc"]:
+            orders[q.get("order", "shuffle")] = orders.get(q.get("order", "shuffle"), 0) + 1
+    return {"face_list_orders": orders, "grid_kinds": kinds, "grid_dims": dims, "sizes": sizes, "grids_with_split_faces": split,
             "signs_cells_queries": nq, "signs_cells_errors": nerr,
             "div_error_dims": sum(1 for c in cases for d in c["div"] if d < 1)}
